@@ -7,7 +7,7 @@
    returned before /repo commit 0caa6b8. *)
 From Coq Require Import List NArith ZArith Bool Arith Lia.
 From Muscle Require Import Gen.Consts Refl.Base Refl.Tree Refl.Matcher Refl.Traverse Refl.Session Refl.Server
-  Refl.Bounded Refl.BoundedSpec Refl.BoundedProofs.
+  Refl.Bounded Refl.BoundedSpec Refl.BoundedProofs Refl.BoundedInv Refl.BoundedCost.
 Import ListNotations.
 Local Open Scope N_scope.
 
@@ -92,6 +92,12 @@ Proof.
   split.
   - split; [vm_compute; eexists; reflexivity|]. vm_compute. eexists. split; reflexivity.
   - intros [_ [g [Hg Hb]]]. vm_compute in Hg. inversion Hg; subst. discriminate.
+Qed.
+
+(* ... and it has distinct session ids and distinct node paths (the premise of the polynomial fuel bound) *)
+Lemma w_good : good_sv (b_sv w_state).
+Proof.
+  split; vm_compute; repeat (constructor; [cbn; intuition discriminate|]); constructor.
 Qed.
 
 End Witness.
